@@ -87,6 +87,24 @@ Definition check_roundtrip (c : roundtrip_case) : N :=
         (optZ_eqb ileq (Some i) && optZ_eqb igeq (Some i) &&
          optZ_eqb iless (if (i =? 0)%Z then None else Some (i - 1)%Z)).
 
+(* axis started by position / by the index 0 (impl: None = ValueError) *)
+Fixpoint Qlist_eqb (a b : list Q) : bool :=
+  match a, b with
+  | [], [] => true
+  | x :: a', y :: b' => Qeqb x y && Qlist_eqb a' b'
+  | _, _ => false
+  end.
+Definition axis_at_case := (Q * Q * option Q * option (list Q))%type.
+Definition check_axis_at (c : axis_at_case) : N :=
+  let '(off, itv, p, r) := c in
+  let m := match p with Some p => sampled_axis_at off itv 3 p | None => Some (sampled_axis off itv 3 0) end in
+  let ok := match m, r with
+            | None, None => true
+            | Some a, Some b => Qlist_eqb a b
+            | _, _ => false
+            end in
+  vcode ok ok.
+
 (* ---- range (ticks) *)
 Definition tick_fn (ticks : list Q) (i : Z) : Q := nth (Z.to_nat i) ticks 0.
 Definition nticks (ticks : list Q) : option Z := Some (Z.of_nat (length ticks)).
